@@ -44,7 +44,7 @@ func c19Run(e *vh.Env, c c19Case, o *vh.Out) {
 	cfg.HealthChecks.Active = config.ActiveHealthCheckConfig{Enabled: true, Interval: c.Interval, Timeout: c.ProbeTO, Path: "/health"}
 	cfg.HealthChecks.Passive = config.PassiveHealthCheckConfig{Enabled: true, UnhealthyThreshold: 3, UnhealthyTimeout: 30}
 	cfg.Server.Timeouts = config.TimeoutConfig{Read: 30, Write: 30, Idle: 60, Shutdown: c.ShutdownTO, BackendRead: 30}
-	if c.Pool > 0 {
+	if c.Pool != 0 { // -1: pool enabled but empty when the stop signal arrives
 		cfg.LoadBalancer.WebSocketPool = config.WebSocketPoolConfig{Enabled: true, MaxIdle: 8, MaxActive: 16, IdleTimeoutSeconds: 600}
 	}
 	if err := cfg.Validate(); err != nil {
@@ -188,6 +188,18 @@ func c19Run(e *vh.Env, c c19Case, o *vh.Out) {
 	if len(pooled) > 0 {
 		o.Obs("pooled_closed", int64(len(pooled)))
 	}
+	if c.Pool != 0 {
+		// a tunnel that ends after shutdown hands its connection back: the pool must not keep it open
+		p := sys.LB.VerifWSPool()
+		late := &fakeConn{id: 99}
+		kept := p.Put("b0", late)
+		idle, _ := p.Stats("b0")
+		if (kept || idle > 0) && !late.isClosed() {
+			o.Viol("C19|pool-keeps-conn-after-shutdown|"+c.Mode, fmt.Sprintf("%s: a connection returned to the pool after shutdown was accepted (kept=%v, idle=%d) and stays open", ctx, kept, idle), nil)
+			return
+		}
+		o.Obs("late_put_refused", 1)
+	}
 	// new connections are refused after a graceful shutdown of the server
 	if c.Mode != "stop-only" {
 		// no request is sent to the freed port (it may already belong to another process, whose accounting a stray
@@ -229,7 +241,7 @@ func init() {
 									continue
 								}
 								cs = append(cs, c19Case{Strategy: allStrategies[n%5], Interval: interval, ProbeMs: pv[0], ProbeTO: pv[1], ShutdownTO: 3, StopAtMs: stopAt,
-									Inflight: inflight, ReqMs: 1500, Mode: mode, Pool: (n % 4)})
+									Inflight: inflight, ReqMs: 1500, Mode: mode, Pool: (n % 5) - 1})
 							}
 						}
 					}
@@ -238,7 +250,7 @@ func init() {
 			return cs
 		},
 		func(e *vh.Env, c c19Case, o *vh.Out) {
-			o.Need("shutdowns", "inflight_completed", "probe_silence_checked", "pooled_closed")
+			o.Need("shutdowns", "inflight_completed", "probe_silence_checked", "pooled_closed", "late_put_refused")
 			c19Run(e, c, o)
 			o.Distinct(vh.J(c))
 			if c.Mode == "concurrent" && c.Inflight == "body" && c.Interval == 2 && c.StopAtMs == 2001 {
